@@ -2098,6 +2098,12 @@ def c18(ctx):
     scs.append(dict(base, id="c18-three-layers", iwc={"wc_type": "Prop", "method": "Layer", "depth_layer": [1, 2, 3], "value": ["FC", "WP", "SAT"]},
                     soil={"type": "custom", "dz": [0.1] * 12,
                           "layers": [[0.5, 0.10, 0.22, 0.41, 1200, 100], [0.4, 0.23, 0.39, 0.5, 125, 100], [0.3, 0.32, 0.50, 0.54, 15, 100]]}))
+    # few, thick compartments under a deep-rooted crop: every compartment is thickened and the bottom one is extended
+    mz = dict(start="1982/05/01", end="1982/12/31", weather={"kind": "file", "name": "champion_climate.txt"},
+              crop={"name": "Maize", "planting": "05/01", "overrides": {}})
+    scs.append(dict(mz, id="c18-thick-8", iwc=S.random_iwc(rng, 1), soil={"type": "SandyLoam", "dz": [0.15] * 8}))
+    scs.append(dict(mz, id="c18-thick-4", iwc=S.random_iwc(rng, 1), soil={"type": "Loam", "dz": [0.3] * 4}))
+    scs.append(dict(mz, id="c18-thick-mixed", iwc=S.random_iwc(rng, 1), soil={"type": "ClayLoam", "dz": [0.1] * 4 + [0.2] * 4}))
     scs.append(dict(base, id="c18-three-equal-layers", iwc={"wc_type": "Pct", "method": "Layer", "depth_layer": [1, 2, 3], "value": [70.0, 50.0, 30.0]},
                     soil={"type": "custom", "dz": [0.1] * 12,
                           "layers": [[0.4, 0.10, 0.22, 0.41, 1200, 100], [0.4, 0.23, 0.39, 0.5, 125, 100], [0.4, 0.32, 0.50, 0.54, 15, 100]]}))
